@@ -107,8 +107,144 @@ def sp_pow2(eng, st, n):
     return V.vint(PYPOW(z3.IntVal(2), x))
 
 
+GOV = z3.Function("GOV", z3.ArraySort(z3.IntSort(), z3.IntSort()), z3.IntSort(), z3.IntSort(), z3.IntSort())
+BIG = 10**15
+
+
+def field_array(seq: Val, field: str):
+    """The z3 array holding scalar field `field` of a sequence of records."""
+    rec = seq.shape.elem
+    off = 0
+    for name, sh in rec.fields.items():
+        if name == field:
+            assert len(sh.sorts()) == 1
+            return seq.d[0][off]
+        off += len(sh.sorts())
+    raise KeyError(field)
+
+
+def _be_parts(be: Val):
+    ev = be.d["events"]
+    return (field_array(ev, "tick"), field_array(ev, "timestamp"), field_array(ev, "bpm"),
+            field_array(ev, "_proximal_bpm_event_index"), ev.d[1], be.d["resolution"].d)
+
+
+def sorted_ticks_z3(tick, n):
+    i, j = z3.Int(V.fresh_name("si")), z3.Int(V.fresh_name("sj"))
+    return z3.ForAll([i, j], z3.Implies(z3.And(0 <= i, i < j, j < n), tick[i] < tick[j]))
+
+
+def sp_sorted_ticks(eng, st, be):
+    tick, ts, bpm, idx, n, res = _be_parts(eng.as_sym(be))
+    return V.vbool(sorted_ticks_z3(tick, n))
+
+
+def gov_z3(eng, tick, n, t):
+    g = GOV(tick, n, t)
+    key = ("gov", tick.get_id(), n.get_id(), t.get_id())
+    if key not in eng.ctx.spec_cache:
+        eng.ctx.spec_cache[key] = True
+        k, j = z3.Int(V.fresh_name("gk")), z3.Int(V.fresh_name("gj"))
+        body = z3.And(0 <= g, g < n, tick[g] <= t,
+                      z3.ForAll([j], z3.Implies(z3.And(g < j, j < n), tick[j] > t)))
+        eng.ctx.axioms.append(z3.ForAll([k], z3.Implies(z3.And(0 <= k, k < n, tick[k] <= t), body)))
+    return g
+
+
+def sp_gov(eng, st, be, t):
+    tick, ts, bpm, idx, n, res = _be_parts(eng.as_sym(be))
+    return V.vint(gov_z3(eng, tick, n, eng._int(eng.as_sym(t))))
+
+
+def ts_z3(eng, be, t, register_td=True):
+    tick, ts, bpm, idx, n, res = _be_parts(be)
+    g = gov_z3(eng, tick, n, t)
+    sec = SEC(t - tick[g], bpm[g], res)
+    td = eng.ctx.fm.td(sec) if register_td else floats.TDf(sec)
+    return ts[g] + td
+
+
+def sp_TS(eng, st, be, t):
+    """Spec timestamp of tick t: ts[g] + TD(SEC(t - tick[g], bpm[g], res)), g = gov(be, t)."""
+    return V.vtd(ts_z3(eng, eng.as_sym(be), eng._int(eng.as_sym(t))))
+
+
+def wf_z3(be: Val):
+    tick, ts, bpm, idx, n, res = _be_parts(be)
+    k = z3.Int(V.fresh_name("wk"))
+    chain = z3.ForAll([k], z3.Implies(
+        z3.And(0 <= k, k < n - 1),
+        z3.And(bpm[k] > 0, ts[k + 1] == ts[k] + floats.TDf(SEC(tick[k + 1] - tick[k], bpm[k], res)))))
+    k2 = z3.Int(V.fresh_name("wk"))
+    idxs = z3.ForAll([k2], z3.Implies(z3.And(0 <= k2, k2 < n), idx[k2] == k2))
+    return z3.And(res >= 1, n >= 1, tick[0] == 0, ts[0] == 0, sorted_ticks_z3(tick, n), chain, idxs)
+
+
+def sp_WF(eng, st, be):
+    return V.vbool(wf_z3(eng.as_sym(be)))
+
+
+def env_z3(be: Val):
+    """Numeric envelope in which the float model is valid (implied by the properties' bounds)."""
+    tick, ts, bpm, idx, n, res = _be_parts(be)
+    k = z3.Int(V.fresh_name("ek"))
+    return z3.And(res <= BIG, z3.ForAll([k], z3.Implies(
+        z3.And(0 <= k, k < n),
+        z3.And(tick[k] >= -BIG, tick[k] <= BIG, bpm[k] <= 10**9, z3.Or(bpm[k] <= 0, 1024 * bpm[k] >= 1)))))
+
+
+def sp_ENV(eng, st, be):
+    return V.vbool(env_z3(eng.as_sym(be)))
+
+
+def _rx_of(eng, key_val):
+    from pyvc.objects import RxSym
+    key = key_val.d.as_string() if not isinstance(key_val.shape, ConcS) else key_val.d
+    if isinstance(key, str):
+        cls = eng.live_class(key)
+        pat = cls._regex_prog
+    else:
+        pat = key
+    return RxSym(pat.pattern, pat.groups)
+
+
+def sp_rxm(eng, st, key, line):
+    """line is in the language of the live class's shipped pattern."""
+    rx = _rx_of(eng, key)
+    return V.vbool(rx.match(eng.as_sym(line).d))
+
+
+def sp_rxg(eng, st, key, i, line):
+    rx = _rx_of(eng, key)
+    return V.vstr(rx.group[V.concrete_int(eng.as_sym(i).d)](eng.as_sym(line).d))
+
+
+def sp_rxg_none(eng, st, key, i, line):
+    rx = _rx_of(eng, key)
+    return V.vbool(rx.group_none[V.concrete_int(eng.as_sym(i).d)](eng.as_sym(line).d))
+
+
+def sp_decok(eng, st, s):
+    from pyvc.objects import DECOK
+    return V.vbool(DECOK(eng.as_sym(s).d))
+
+
+def sp_round3(eng, st, x):
+    return V.vreal(eng.ctx.fm.round_ndigits(eng._num(eng.as_sym(x)), 3))
+
+
 def register(reg):
     f = reg.spec_funcs
+    f["rxm"] = sp_rxm
+    f["rxg"] = sp_rxg
+    f["rxg_none"] = sp_rxg_none
+    f["decok"] = sp_decok
+    f["round3"] = sp_round3
+    f["sorted_ticks"] = sp_sorted_ticks
+    f["gov"] = sp_gov
+    f["TS"] = sp_TS
+    f["WF"] = sp_WF
+    f["ENV"] = sp_ENV
     f["implies"] = sp_implies
     f["iff"] = sp_iff
     f["forall"] = sp_forall
